@@ -1808,6 +1808,29 @@ func c15Modular(rng *rand.Rand) []*genetics.Genome {
 		Mods: []c15M{{Node: c15N{8, 0, 21, nil}, Innov: 5, Mut: c15fs(0.5), En: true, Ins: []c15L{{4, one}, {5, one}}, Outs: []c15L{{6, one}}},
 			{Node: c15N{9, 0, 22, ip(1)}, Innov: 6, Mut: c15fs(1.5), En: false, Ins: []c15L{{4, one}, {6, one}}, Outs: []c15L{{6, one}, {5, one}}}}}
 	out = append(out, c15Build(j))
+	// the same genome with node ids starting at 0: a module reads node 0
+	{
+		jz := c15Capture(c15Build(j))
+		jz.Id = 6
+		for i := range jz.Nodes {
+			jz.Nodes[i].Id--
+		}
+		for i := range jz.Genes {
+			jz.Genes[i].In--
+			jz.Genes[i].Out--
+		}
+		for i := range jz.Mods {
+			jz.Mods[i].Node.Id--
+			for k := range jz.Mods[i].Ins {
+				jz.Mods[i].Ins[k].Id--
+			}
+			for k := range jz.Mods[i].Outs {
+				jz.Mods[i].Outs[k].Id--
+			}
+		}
+		jz.Mods[0].Ins[0].Id = 0
+		out = append(out, c15Build(jz))
+	}
 	// variations of scalar content
 	n := len(out)
 	for k := 0; k < 6; k++ {
